@@ -354,7 +354,17 @@ impl NCase {
             }
             _ => {
                 // a bounds attribute that leaves a non-skipped type parameter without a bound
-                let (neg, twin, ty) = match v % 5 {
+                let (neg, twin, ty) = match v % 7 {
+                    5 => (
+                        "pub trait Tr { type A; }\nimpl Tr for u8 { type A = u16; }\n#[derive(TypeInfo)]\n#[scale_info(bounds(T::A: TypeInfo + 'static))]\npub struct X<T: Tr + TypeInfo + 'static> { a: T::A }",
+                        "pub trait Tr { type A; }\nimpl Tr for u8 { type A = u16; }\n#[derive(TypeInfo)]\n#[scale_info(bounds(T::A: TypeInfo + 'static, T: TypeInfo + 'static))]\npub struct X<T: Tr + TypeInfo + 'static> { a: T::A }",
+                        "X<u8>",
+                    ),
+                    6 => (
+                        "pub trait Tr { type A; }\nimpl Tr for u8 { type A = u16; }\n#[derive(TypeInfo)]\n#[scale_info(bounds(<T as Tr>::A: TypeInfo + 'static, Option<T>: TypeInfo + 'static))]\npub enum X<T: Tr + TypeInfo + 'static> { V(<T as Tr>::A), W(Option<T>) }",
+                        "pub trait Tr { type A; }\nimpl Tr for u8 { type A = u16; }\n#[derive(TypeInfo)]\n#[scale_info(bounds(<T as Tr>::A: TypeInfo + 'static, Option<T>: TypeInfo + 'static, T: TypeInfo + 'static))]\npub enum X<T: Tr + TypeInfo + 'static> { V(<T as Tr>::A), W(Option<T>) }",
+                        "X<u8>",
+                    ),
                     0 => ("#[scale_info(bounds(U: TypeInfo + 'static))]\npub struct X<T, U> { a: T, b: U }", "#[scale_info(bounds(U: TypeInfo + 'static, T: TypeInfo + 'static))]\npub struct X<T, U> { a: T, b: U }", "X<u8, u16>"),
                     1 => ("#[scale_info(bounds())]\npub struct X<T> { a: T }", "#[scale_info(bounds(T: TypeInfo + 'static))]\npub struct X<T> { a: T }", "X<u8>"),
                     2 => ("#[scale_info(bounds(Vec<T>: TypeInfo + 'static))]\npub struct X<T> { a: Vec<T> }", "#[scale_info(bounds(Vec<T>: TypeInfo + 'static, T: TypeInfo + 'static))]\npub struct X<T> { a: Vec<T> }", "X<u8>"),
@@ -365,7 +375,8 @@ impl NCase {
                     ),
                     _ => ("#[scale_info(bounds('a: 'static))]\npub struct X<'a, T> { a: &'a T }", "#[scale_info(bounds('a: 'static, T: TypeInfo + 'static))]\npub struct X<'a, T> { a: &'a T }", "X<'static, u8>"),
                 };
-                Programs { negative: derive_prog(&format!("#[derive(TypeInfo)]\n{neg}"), ty), twin: derive_prog(&format!("#[derive(TypeInfo)]\n{twin}"), ty), builder: false, what: "bounds attribute leaving a parameter unbound", sig: "derive-accepts" }
+                let wrap = |item: &str| if item.contains("#[derive(TypeInfo)]") { item.to_string() } else { format!("#[derive(TypeInfo)]\n{item}") };
+                Programs { negative: derive_prog(&wrap(neg), ty), twin: derive_prog(&wrap(twin), ty), builder: false, what: "bounds attribute leaving a parameter unbound", sig: "derive-accepts" }
             }
         }
     }
